@@ -164,6 +164,13 @@ impl BaseSpec {
 
 /// Judge one corrupted archive through the real CLI. Returns Err on violation.
 fn cli_case(dir: &Path, tag: &str, arch: &Arch, m: &Mutation, seed_file: Option<&Path>, verify_output: bool) -> Result<&'static str, String> {
+    cli_case_mode(dir, tag, arch, m, seed_file, verify_output, false)
+}
+
+/// `in_place`: the output already holds the seed file's content and is updated with
+/// --seed-output (a corrupted archive must not turn a partial in-place update into a
+/// "successful" wrong output either).
+fn cli_case_mode(dir: &Path, tag: &str, arch: &Arch, m: &Mutation, seed_file: Option<&Path>, verify_output: bool, in_place: bool) -> Result<&'static str, String> {
     let bad = m.apply(&arch.bytes, arch);
     if bad == arch.bytes {
         return Ok("noop");
@@ -172,10 +179,15 @@ fn cli_case(dir: &Path, tag: &str, arch: &Arch, m: &Mutation, seed_file: Option<
     let out = dir.join(format!("{}.out", tag));
     std::fs::write(&apath, &bad).map_err(|e| e.to_string())?;
     let _ = std::fs::remove_file(&out);
+    let in_place = in_place && seed_file.is_some();
+    if in_place {
+        std::fs::copy(seed_file.unwrap(), &out).map_err(|e| e.to_string())?;
+    }
     let spec = CloneSpec {
         archive: p(&apath),
         output: out.clone(),
-        seeds: seed_file.map(|x| vec![x.to_path_buf()]).unwrap_or_default(),
+        seeds: if in_place { vec![] } else { seed_file.map(|x| vec![x.to_path_buf()]).unwrap_or_default() },
+        seed_output: in_place,
         verify_output,
         ..Default::default()
     };
@@ -204,7 +216,7 @@ fn cli_case(dir: &Path, tag: &str, arch: &Arch, m: &Mutation, seed_file: Option<
             }
             return Ok("survived");
         }
-        if header && out.exists() {
+        if header && out.exists() && !in_place {
             return Err("a change inside the header was rejected only after the output file had been created".into());
         }
         Ok("rejected")
@@ -271,8 +283,8 @@ fn exhaustive(rep: &Report, seed: u64, tier: Tier) {
         let seed_path = dir.join("seed.bin");
         std::fs::write(&seed_path, gen::apply_edit(&mut rng, &arch.source, gen::Edit::Overwrite)).unwrap();
         let res = par_map(muts.len(), crate::util::ncpu(), |i| {
-            let with_seed = i % 5 == 0;
-            cli_case(&dir, &format!("m{}", i), &arch, &muts[i], if with_seed { Some(&seed_path) } else { None }, i % 7 == 0)
+            let with_seed = i % 5 == 0 || i % 11 == 3;
+            cli_case_mode(&dir, &format!("m{}", i), &arch, &muts[i], if with_seed { Some(&seed_path) } else { None }, i % 7 == 0, i % 11 == 3)
         });
         let mut reported = 0;
         for (i, r) in res.into_iter().enumerate() {
